@@ -19,6 +19,9 @@ func propC11(c *Ctx, r *Report) {
 	r.rule("C11/era-table", 7, "grader versions and payout steps by height class")
 	e.evalRows(r, e.rowsC11(r))
 	ruleEligibilityView(c, r, buildSQLCat(c), "C11/eligibility-view")
+	ruleAllLoopsComplete(c, r, "C11/payout-loops-complete", c.fn("node.Pegnetd.ApplyFactoidBlock"), "every factoid transaction of the block is scanned for burns")
+	r.rule("C11/previous-winners-query", 1, "previous winners are those of the newest graded block below the height")
+	rulePreviousWinnersQuery(c, r, buildSQLCat(c), "C11/previous-winners-query")
 	r.rule("C11/payout-loops-complete", 3, "every winner and every burn is paid, or the block fails")
 	ruleLoopCompletes(c, r, "C11/payout-loops-complete", c.fn("node.Pegnetd.ApplyGradedOPRBlock"), "pegnet.Pegnet.AddToBalance", "every winning OPR is paid")
 	ruleLoopCompletes(c, r, "C11/payout-loops-complete", c.fn("node.Pegnetd.ApplyGradedSPRBlock"), "pegnet.Pegnet.AddToBalance", "every winning SPR is paid")
